@@ -673,6 +673,9 @@ static char g_mode;
 static size_t
 get_format(uint64_t idx, uint64_t nenum, char *buf)
 {
+	if (g_mode == 'H' || g_mode == 'h') {
+		return xh_format(idx, buf);
+	}
 	if (g_mode == 'S' || g_mode == 'Q') {
 		/* single specifiers, then ordered pairs */
 		if (idx < XC_NSPECS) {
@@ -1024,6 +1027,9 @@ unit_F(uint64_t idx)
 				continue;
 			}
 			for (int bsz = 0; bsz <= BSZ_MAX; bsz++) {
+				if (g_mode == 'H' && !(bsz <= 2 || bsz == 8 || bsz == BSZ_MAX)) {
+					continue;	/* the high byte acts before anything is printed: five sizes will do */
+				}
 				if (format_case(func, fmt, flen, vi, bsz)) {
 					return 1;
 				}
@@ -1083,6 +1089,8 @@ run_unit(char mode, uint64_t idx)
 	case 'F': return unit_F(idx);
 	case 'S': return unit_F(idx);
 	case 'Q': return unit_P(idx);
+	case 'h': return unit_P(idx);
+	case 'H': return unit_F(idx);
 	case 'N': return unit_F_null(idx);
 	}
 	return 0;
@@ -1181,7 +1189,8 @@ main(int argc, char *argv[])
 		"alone and every ordered pair of them as format, for the parsers (Q) and the formatters (S), same texts / values / sizes. Every string sits in a block of exactly its size (ASan red zone before the first and behind the last byte), "
 		"the output buffer has exactly bsz bytes. Oracles: no ASan/bounds report, no fatal signal, returns within 1 s, return value <= bsz, no byte outside the buffer changed, "
 		"parser answer and end pointer independent of the bytes behind the terminators (two fills) and end pointer inside the text, formatter output independent of the bytes "
-		"behind the format's terminator. X: %d formats (each specifier in a determining context, calendar names) x the text the formatter prints for them with ONE mutation that makes it "
+		"behind the format's terminator. H/h: every string over the format alphabet of length <= 3 (thorough 4) with 0x80, 0xc3, 0xff or the UTF-8 letter e-acute inserted at "
+		"every position 0..3, for the formatters (buffer sizes 0 1 2 8 40) and the parsers. X: %d formats (each specifier in a determining context, calendar names) x the text the formatter prints for them with ONE mutation that makes it "
 		"certainly no date under the format (numeric field -> letter / nothing / beyond its documented range, name -> Xyz, literal or inner separator of %%F/%%T -> letter / digit) and "
 		"the day-number names with empty, blank, '.5', 'x' texts: dt_strpdt/dt_strpd must answer unknown. non-trivial = case with at least one report. Not judged: WHICH value a parser returns (C09) and whether partial dates are dates.",
 		(int)NNAMED, NFIXED, NINFMT, NVAL, NDTDUR, NDDUR, BSZ_MAX, (int)XC_NSPECS, NXFMT);
@@ -1190,13 +1199,13 @@ main(int argc, char *argv[])
 		lenP, (unsigned long long)nstrings(lenP), lenI, (unsigned long long)nstrings(lenI), lenI, lenF, (unsigned long long)nstrings(lenF), BSZ_MAX, (int)XC_NSPECS, (int)(XC_NSPECS * XC_NSPECS));
 
 	{
-		static const struct { char mode; int batch; } plan[] = {{'N', 1}, {'X', 4}, {'Q', 256}, {'S', 32}, {'P', 1024}, {'I', 2048}, {'D', 8192}, {'F', 128}};
+		static const struct { char mode; int batch; } plan[] = {{'N', 1}, {'X', 4}, {'h', 512}, {'H', 256}, {'Q', 256}, {'S', 32}, {'P', 1024}, {'I', 2048}, {'D', 8192}, {'F', 128}};
 		for (size_t k = 0; k < sizeof(plan) / sizeof(*plan) && !ex_expired(); k++) {
 			uint64_t total;
 			g_mode = plan[k].mode;
 			g_maxlen = g_mode == 'F' ? lenF : g_mode == 'P' ? lenP : lenI;
 			g_nenum = nstrings(g_maxlen);
-			total = g_mode == 'N' ? 1 : g_mode == 'X' ? (uint64_t)NXFMT + sizeof(xnames) / sizeof(*xnames) : (g_mode == 'S' || g_mode == 'Q') ? XC_NSPECS + XC_NSPECS * XC_NSPECS :
+			total = g_mode == 'N' ? 1 : (g_mode == 'H' || g_mode == 'h') ? xh_count(ex.thorough ? 4 : 3) : g_mode == 'X' ? (uint64_t)NXFMT + sizeof(xnames) / sizeof(*xnames) : (g_mode == 'S' || g_mode == 'Q') ? XC_NSPECS + XC_NSPECS * XC_NSPECS :
 				g_nenum + ((g_mode == 'P' || g_mode == 'F') ? NNAMED : 0);
 			for (uint64_t lo = 0; lo < total && !ex.expired; lo += (uint64_t)plan[k].batch, slice++) {
 				uint64_t hi = lo + (uint64_t)plan[k].batch < total ? lo + (uint64_t)plan[k].batch : total;
